@@ -1164,3 +1164,42 @@ func intBounds(v ssa.Value, conds []CondEdge, seen map[ssa.Value]bool) (lo, hi i
 	}
 	return
 }
+
+// PhiLeaf is one value that can flow into a phi web together with the conditional edges known to have been
+// taken on the way in (guards of the predecessor block plus the predecessor's own branch into the phi's block).
+type PhiLeaf struct {
+	Val   ssa.Value
+	Conds []CondEdge
+}
+
+// PhiLeaves flattens the phi web rooted at v path-sensitively (conversions are looked through).
+func PhiLeaves(v ssa.Value) []PhiLeaf {
+	var out []PhiLeaf
+	seen := map[ssa.Value]bool{}
+	var walk func(v ssa.Value, conds []CondEdge)
+	walk = func(v ssa.Value, conds []CondEdge) {
+		v = stripConv(v)
+		phi, ok := v.(*ssa.Phi)
+		if !ok {
+			out = append(out, PhiLeaf{v, conds})
+			return
+		}
+		if seen[phi] {
+			return
+		}
+		seen[phi] = true
+		for i, e := range phi.Edges {
+			pred := phi.Block().Preds[i]
+			cs := append([]CondEdge{}, conds...)
+			if n := len(pred.Instrs); n > 0 {
+				cs = append(cs, GuardingEdges(pred.Instrs[n-1])...)
+				if iff, isIf := pred.Instrs[n-1].(*ssa.If); isIf && pred.Succs[0] != pred.Succs[1] {
+					cs = append(cs, CondEdge{iff, pred.Succs[0] == phi.Block()})
+				}
+			}
+			walk(e, cs)
+		}
+	}
+	walk(v, nil)
+	return out
+}
